@@ -484,7 +484,8 @@ theorem loop_shape (cfg : Cfg) (st0 : Mask) (hc : Compliant cfg.toFCfg st0) (fue
         exact ⟨Or.inr (Or.inr (Or.inr this.1.2)), this.2, fun _ _ _ _ => this.1.2⟩
 
 theorem run_shape (cfg : Cfg) (env : Env) (st0 : Mask) (hc : Compliant cfg.toFCfg st0)
-    (hs : has st0 Secure = false) (hr : has st0 Ready = false) (i : Input) (fuel : Nat) :
+    (hs : has st0 Secure = false) (hr : has st0 Ready = false) (hk : env.conn.startsSecure = false)
+    (i : Input) (fuel : Nat) :
     let tr := (run cfg env st0 i fuel).1
     (tr.filter isSig = [] ∨ tr.filter isSig = [.wHdr false] ∨ tr.filter isSig = [.wHdr false, .wStartTLS false] ∨
       tr.filter isSig = [.wHdr false, .wStartTLS false, .switch]) ∧
@@ -493,7 +494,11 @@ theorem run_shape (cfg : Cfg) (env : Env) (st0 : Mask) (hc : Compliant cfg.toFCf
   unfold run
   split
   · exact ⟨Or.inl rfl, fun _ _ _ h => by cases h⟩
-  · have h := loop_shape cfg st0 hc fuel false (init env st0 i)
+  · rw [init_clear env st0 i hk]
+    have h := loop_shape cfg st0 hc fuel false
+      { state := st0, tls := false, hs := false, buf := [], clear := i.clear, prot := i.prot,
+        oracle := i.oracle, negotiated := [], doRestart := true, first := true,
+        domain := env.domain, captured := env.captured, sni := env.conn.name, trace := [] }
       (Or.inr ⟨⟨⟨⟨rfl, hs, rfl, rfl, fun e he => (by cases he)⟩, rfl⟩, rfl, rfl⟩, hr⟩)
     obtain ⟨h1, _, h3⟩ := h
     have hrev : ∀ l : List Ev, (l.reverse).filter isSig = (sig l).reverse := by
@@ -509,5 +514,26 @@ theorem run_shape (cfg : Cfg) (env : Env) (st0 : Mask) (hc : Compliant cfg.toFCf
     · intro st t hk hd
       rw [h3 st t hk hd]
       rfl
+
+/-- on a `*tls.Conn` nothing security relevant happens in clear text: no clear write, no
+STARTTLS request, no second layer -/
+theorem run_secure_conn (cfg : Cfg) (env : Env) (st0 : Mask) (hk : env.conn.startsSecure = true)
+    (i : Input) (fuel : Nat) :
+    (run cfg env st0 i fuel).1.filter isSig = [] ∧ GoodOutcome (run cfg env st0 i fuel).2 := by
+  unfold run
+  split
+  · exact ⟨rfl, trivial⟩
+  · rw [init_secure env st0 i hk]
+    have h := loop_PS cfg [] fuel false
+      { state := st0 ||| Secure, tls := true, hs := false, buf := [], clear := i.clear, prot := i.prot,
+        oracle := i.oracle, negotiated := [], doRestart := true, first := true,
+        domain := env.domain, captured := env.captured, sni := env.conn.name, trace := [] }
+      ⟨⟨rfl, has_or_self st0 Secure, fun e he => (by cases he)⟩, rfl⟩
+    refine ⟨?_, h.2⟩
+    have hrev : ∀ l : List Ev, (l.reverse).filter isSig = (sig l).reverse := by
+      intro l; simp [sig, List.filter_reverse]
+    dsimp only
+    rw [hrev, h.1.2]
+    rfl
 
 end XmppModel.StartTLS
